@@ -1273,7 +1273,16 @@ def run(rep, tier):
         impl2 = pool.map(impl_l2, l2, chunksize=4)
         l2s = gen_l2seq(tier, r, table)
         impl2s = pool.map(impl_l2, l2s, chunksize=2)
-        lap("impl_l2")
+    # a run that did not finish in a worker (a loaded machine: 16 workers share the cores with whatever else runs) is
+    # repeated here, alone, with a long allowance; only if that fails too is it reported (as a broken tie)
+    for cs, ims in ((l2, impl2), (l2s, impl2s)):
+        for k, im in enumerate(ims):
+            if im.get("exc") == "TIMEOUT" and rep.coverage.get("l2_reruns_after_timeout", 0) < 6:
+                rep.coverage["l2_reruns_after_timeout"] = rep.coverage.get("l2_reruns_after_timeout", 0) + 1
+                r2 = _guarded(_impl_l2, cs[k], None, allowance=300)
+                if r2 is not None:
+                    ims[k] = r2
+    lap("impl_l2")
 
     # model calls; a length beyond what Python can index (OverflowError / MemoryError in the real
     # code, malformed calldata only) is outside the model: such evaluations are counted, not compared
